@@ -7,6 +7,7 @@ Require Import WV.model.C06Cascade WV.model.C06Inherit WV.model.C06Values WV.mod
 Require Import WV.proofs.C06_cascade WV.proofs.C06_order WV.proofs.C06_inherit WV.proofs.C06_values WV.proofs.C06_imports.
 Require WV.base.Py WV.gen.GenCss WV.proofs.C06_gen_precedence WV.gen.GenMedia WV.proofs.C06_gen_media.
 Require WV.base.PyLink WV.gen.GenComputed WV.proofs.C06_gen_length WV.proofs.C06_gen_font_size WV.proofs.C06_gen_tuples.
+Require WV.gen.GenComputedGap WV.proofs.C06_gen_gap WV.proofs.C06_gen_border_width.
 Import ListNotations.
 
 (* ================================================================ 1. the cascade *)
@@ -438,3 +439,105 @@ Theorem C06_source_length_tuples xr cr own rootfs (root : bool) more n (ps : lis
      C06_gen_tuples.each_ok false (C06_gen_length.env_of xr cr own rootfs root more) (String.eqb n "font_size") ps rs).
 Proof. exact (C06_gen_tuples.gen_tuples xr cr own rootfs root more n ps). Qed.
 Print Assumptions C06_source_length_tuples.
+
+(* three more computers, regenerated (gen/GenComputedGap.v): gap (column-gap, row-gap), word_spacing and
+   border_radius (the four border-*-radius properties).  gap keeps 'normal' and hands every other value to
+   length(): the hand model's answer, as Dimension(q, 'px') or the value itself; it never raises *)
+Theorem C06_source_gap xr cr own rootfs (root : bool) more n k v :
+  C06_gen_length.res_ok false (C06_gen_length.lval_val k v)
+    (length (C06_gen_length.env_of xr cr own rootfs root more) (String.eqb n "font_size") None v)
+    (PyLink.call_body (C06_gen_length.lops2 xr cr) C06_gen_gap.gap_fn
+       [C06_gen_length.style_val own rootfs root more; Py.VStr n; C06_gen_length.lval_val k v]) /\
+  PyLink.call_body (C06_gen_length.lops2 xr cr) C06_gen_gap.gap_fn
+    [C06_gen_length.style_val own rootfs root more; Py.VStr n; Py.VStr "normal"] = Py.VStr "normal".
+Proof. exact (C06_gen_gap.gen_gap xr cr own rootfs root more n k v). Qed.
+Print Assumptions C06_source_gap.
+
+(* the clause: a gap given in an absolute unit computes to the fixed multiple of the pixel, never negative for a
+   non-negative specified length; a percentage gap stays the percentage *)
+Theorem C06_source_gap_clauses xr cr own rootfs (root : bool) more n v u f :
+  (to_pixels u = Some f ->
+   exists q, q == v * f /\ (0 <= v -> 0 <= q) /\
+     PyLink.call_body (C06_gen_length.lops2 xr cr) C06_gen_gap.gap_fn
+       [C06_gen_length.style_val own rootfs root more; Py.VStr n;
+        C06_gen_length.dim v (Py.VStr (C06_gen_length.unit_str u))] =
+     C06_gen_length.dim q (Py.VStr "px")) /\
+  PyLink.call_body (C06_gen_length.lops2 xr cr) C06_gen_gap.gap_fn
+    [C06_gen_length.style_val own rootfs root more; Py.VStr n; C06_gen_length.dim v (Py.VStr "%")] =
+  C06_gen_length.dim v (Py.VStr "%").
+Proof. exact (C06_gen_gap.gen_gap_clauses xr cr own rootfs root more n v u f). Qed.
+Print Assumptions C06_source_gap_clauses.
+
+(* word-spacing: 'normal' computes to the number 0, every other value to the hand model's answer in bare pixels *)
+Theorem C06_source_word_spacing xr cr own rootfs (root : bool) more n k v :
+  C06_gen_length.res_ok true (C06_gen_length.lval_val k v)
+    (length (C06_gen_length.env_of xr cr own rootfs root more) (String.eqb n "font_size") None v)
+    (PyLink.call_body (C06_gen_length.lops2 xr cr) C06_gen_gap.word_spacing_fn
+       [C06_gen_length.style_val own rootfs root more; Py.VStr n; C06_gen_length.lval_val k v]) /\
+  PyLink.call_body (C06_gen_length.lops2 xr cr) C06_gen_gap.word_spacing_fn
+    [C06_gen_length.style_val own rootfs root more; Py.VStr n; Py.VStr "normal"] = Py.VNum 0.
+Proof. exact (C06_gen_gap.gen_word_spacing xr cr own rootfs root more n k v). Qed.
+Print Assumptions C06_source_word_spacing.
+
+Theorem C06_source_word_spacing_clauses xr cr own rootfs (root : bool) more n v u f :
+  to_pixels u = Some f ->
+  exists q, q == v * f /\ (0 <= v -> 0 <= q) /\
+    PyLink.call_body (C06_gen_length.lops2 xr cr) C06_gen_gap.word_spacing_fn
+      [C06_gen_length.style_val own rootfs root more; Py.VStr n;
+       C06_gen_length.dim v (Py.VStr (C06_gen_length.unit_str u))] = Py.VNum q.
+Proof. exact (C06_gen_gap.gen_word_spacing_clauses xr cr own rootfs root more n v u f). Qed.
+Print Assumptions C06_source_word_spacing_clauses.
+
+(* border-*-radius: for EVERY tuple of radii the result is the tuple of the hand model's answers, one by one, each
+   Dimension(q, 'px') or the percentage itself; nothing raises *)
+Theorem C06_source_border_radius xr cr own rootfs (root : bool) more n (ps : list (C06_gen_length.lkw * lval)) :
+  exists rs,
+    PyLink.call_body (C06_gen_length.lops2 xr cr) C06_gen_gap.border_radius_fn
+      [C06_gen_length.style_val own rootfs root more; Py.VStr n; Py.VList (C06_gen_tuples.vals ps)] = Py.VList rs /\
+    C06_gen_tuples.each_ok false (C06_gen_length.env_of xr cr own rootfs root more) (String.eqb n "font_size") ps rs.
+Proof. exact (C06_gen_gap.gen_border_radius xr cr own rootfs root more n ps). Qed.
+Print Assumptions C06_source_border_radius.
+
+(* border_width (border-*-width, column-rule-width, outline-width), regenerated whole.  Operations lops3: lops2 and
+   the builtins "%replace" (str.replace: C06_gen_border_width.str_replace), "%getitem" (the entry of a mapping for a
+   str key, KeyError without one), "%isinstance" with the marker "%int" (C06_gen_border_width.isint: the integers).
+   For EVERY property name n and every style whose entry n.replace('width', 'style') is the border style b:
+   none / hidden give 0 whatever the value; else thin / medium / thick give 1 / 3 / 5, an int is kept, and any other
+   value is the hand model's answer for length() in bare pixels; nothing raises *)
+Theorem C06_source_border_width xr cr own rootfs (root : bool) more n b :
+  C06_gen_border_width.style_of_border own rootfs root more n b ->
+  let call value :=
+    PyLink.call_body (C06_gen_border_width.lops3 xr cr) C06_gen_border_width.border_width_fn
+      [C06_gen_length.style_val own rootfs root more; Py.VStr n; value] in
+  (C06_gen_border_width.no_border b = true -> forall x, call x = Py.VNum 0) /\
+  (C06_gen_border_width.no_border b = false ->
+     call (Py.VStr "thin") = Py.VNum 1 /\ call (Py.VStr "medium") = Py.VNum 3 /\ call (Py.VStr "thick") = Py.VNum 5 /\
+     (forall q z, Py.as_int q = Some z -> call (Py.VNum q) = Py.VNum q) /\
+     (forall k v, C06_gen_length.res_ok true (C06_gen_length.lval_val k v)
+                    (length (C06_gen_length.env_of xr cr own rootfs root more) (String.eqb n "font_size") None v)
+                    (call (C06_gen_length.lval_val k v)))).
+Proof. exact (C06_gen_border_width.gen_border_width xr cr own rootfs root more n b). Qed.
+Print Assumptions C06_source_border_width.
+
+(* the clause: with a visible border style, a width in an absolute unit is the fixed multiple of the pixel, never
+   negative for a non-negative specified length *)
+Theorem C06_source_border_width_absolute xr cr own rootfs (root : bool) more n b v u f :
+  C06_gen_border_width.style_of_border own rootfs root more n b -> C06_gen_border_width.no_border b = false ->
+  to_pixels u = Some f ->
+  exists q, q == v * f /\ (0 <= v -> 0 <= q) /\
+    PyLink.call_body (C06_gen_border_width.lops3 xr cr) C06_gen_border_width.border_width_fn
+      [C06_gen_length.style_val own rootfs root more; Py.VStr n;
+       C06_gen_length.dim v (Py.VStr (C06_gen_length.unit_str u))] = Py.VNum q.
+Proof. exact (C06_gen_border_width.gen_border_width_absolute xr cr own rootfs root more n b v u f). Qed.
+Print Assumptions C06_source_border_width_absolute.
+
+(* the key under which the style is read, for the six properties the function is registered for *)
+Theorem C06_source_border_width_keys :
+  C06_gen_border_width.str_replace "width" "style" "border_top_width" = "border_top_style" /\
+  C06_gen_border_width.str_replace "width" "style" "border_right_width" = "border_right_style" /\
+  C06_gen_border_width.str_replace "width" "style" "border_bottom_width" = "border_bottom_style" /\
+  C06_gen_border_width.str_replace "width" "style" "border_left_width" = "border_left_style" /\
+  C06_gen_border_width.str_replace "width" "style" "column_rule_width" = "column_rule_style" /\
+  C06_gen_border_width.str_replace "width" "style" "outline_width" = "outline_style".
+Proof. repeat split. Qed.
+Print Assumptions C06_source_border_width_keys.
